@@ -45,6 +45,7 @@ typedef struct ro_ctx {
     flatcc_refmap_t refmap; int refmap_on;
     /* results */
     long long *res, *res2; size_t nres;
+    int guard;   /* 0 off, 1 watching for the first failing call, 2 tripped: ops are skipped until REC */
 } ro_ctx_t;
 
 static int ro_emit(void *ctxp, const flatcc_iovec_t *iov, int iov_count, flatbuffers_soffset_t offset, size_t len)
@@ -156,6 +157,21 @@ static void ro_fin(ro_ctx_t *c)
     flatcc_builder_free(p);
 }
 
+/* documented failure value of each call: 1 when r is the failure value of op `name` */
+static int ro_is_failure(const char *name, long long r)
+{
+    static const char *neg[] = { "sb", "st", "sv", "so", "sS", "su", "tv", "tov", "tS", "rs", "jp", 0 };   /* int: 0 ok, else failure */
+    static const char *zero[] = { "ss", "ta", "to", "xv", "xo", "aS", "xu", "uf", "es", "et", "ev", "eo", "eS", "eu", "eb", "cb", "cs", "cS", "cv", "emb", "cln", 0 };
+    int k;
+    for (k = 0; neg[k]; ++k) if (!strcmp(name, neg[k])) return r != 0;
+    for (k = 0; zero[k]; ++k) if (!strcmp(name, zero[k])) return r == 0;
+    return 0;
+}
+
+#ifdef RO_EXTRA
+static int RO_EXTRA(struct ro_ctx *c, size_t i, char **f, int nf, long long *r);
+#endif
+
 /* one op; returns 0 to continue, 1 when the op token is unknown */
 static int ro_op(ro_ctx_t *c, size_t i, char *tok)
 {
@@ -165,6 +181,9 @@ static int ro_op(ro_ctx_t *c, size_t i, char *tok)
     while (*p && nf < 8) { if (*p == ':') { *p = 0; f[nf++] = p + 1; } ++p; }
 #define A(k) (k < nf ? f[k] : "0")
 #define IS(s) (strcmp(f[0], s) == 0)
+    if (IS("GUARD")) { c->guard = 1; printf("ok "); return 0; }
+    if (IS("REC")) { printf(c->guard == 2 ? "tripped " : "clean "); c->guard = 0; return 0; }
+    if (c->guard == 2) { printf("_ "); return 0; }
     if (IS("snap")) { ro_snap(c); return 0; }
     if (IS("fin")) { ro_fin(c); return 0; }
     if (IS("evs")) { size_t k; if (!c->nrecs) printf("-"); for (k = 0; k < c->nrecs; ++k) printf("%s%lld:%zu", k ? "," : "", c->recs[k].off, c->recs[k].len); printf(" "); return 0; }
@@ -259,8 +278,12 @@ static int ro_op(ro_ctx_t *c, size_t i, char *tok)
     }
     else if (IS("rm")) { c->refmap_on = atoi(A(1)); flatcc_builder_set_refmap(B, c->refmap_on ? &c->refmap : 0); r = 0; }
     else if (IS("ri")) { static char fake[1 << 16]; long long k, cnt = atoll(A(1)); for (k = 0; k < cnt && k < (1 << 16); ++k) flatcc_builder_refmap_insert(B, fake + k, (flatcc_builder_ref_t)(-4 * (k + 1))); r = (long long)c->refmap.count; }
+#ifdef RO_EXTRA
+    else if (RO_EXTRA(c, i, f, nf, &r)) { }
+#endif
     else { printf("BAD:%s ", tok); printed = 1; free(d); return 1; }
     c->res[i] = r;
+    if (c->guard == 1 && ro_is_failure(f[0], r)) c->guard = 2;
     if (!printed) printf("%lld ", r);
     free(d);
     return 0;
